@@ -18,6 +18,9 @@ import lxml.etree as ET
 IMP = "From V Require Import Model.SerExs Model.XmlRead."
 XSI = "http://www.w3.org/2001/XMLSchema-instance"
 XMI = "http://www.omg.org/XMI"
+# the four attributes the writer moves to the front (the property's "Capella's attribute order"): their
+# position in the source tree is not information, the relative order of all others is
+PRIO = (f"{{{XMI}}}version", f"{{{XMI}}}type", f"{{{XMI}}}id", f"{{{XSI}}}type")
 KNOWN = {"cdata": "text-cdata-end", "blank": "blank-only-leaf-text"}
 
 
@@ -184,7 +187,7 @@ def gen_cases(chk, pools, n_target):
                 def build(neutral, seed=seed, depth=depth, L=L):
                     import random
                     g2 = Gen(random.Random(seed), pools)
-                    root, cur = g2.skeleton(depth)
+                    root, cur = g2.skeleton(depth, ns_keep=0.1)
                     e = g2.payload(cur)
                     keys = [k for k in e.keys()]
                     r2 = random.Random(seed + 1)
@@ -233,7 +236,7 @@ def gen_cases(chk, pools, n_target):
                     import random
                     r2 = random.Random(seed)
                     g2 = Gen(r2, pools)
-                    root, cur = g2.skeleton(r2.randrange(1, 6))
+                    root, cur = g2.skeleton(r2.randrange(1, 6), ns_keep=0.1)
                     s = {"start": ch + "abc def", "mid": "abc " + ch + " def", "end": "abc def" + ch, "only": ch}[where]
                     s = text_of(s, neutral)
                     c = ET.SubElement(cur, "ownedConstraints")
@@ -306,7 +309,7 @@ def check_doc(exs, root, ll):
     if b2 != b1:
         off = next((i for i, (x, y) in enumerate(zip(b1, b2 if isinstance(b2, bytes) else b"")) if x != y), min(len(b1), len(b2) if isinstance(b2, bytes) else 0))
         probs.append(f"write(parse(write(t))) differs from write(t) at byte {off}: {b1[max(0, off - 30):off + 30]!r} vs {b2[max(0, off - 30):off + 30]!r}" if isinstance(b2, bytes) else f"second write raises {b2.raw}")
-    d = xmlenc.tree_diff(root, t2)
+    d = xmlenc.tree_diff(root, t2, unordered_first=PRIO)
     if d:
         probs.append("parsed-back tree differs: " + "; ".join(d[:3]))
     _, wp = scan_tags(b1.decode("utf-8"), ll if ll < 10 ** 6 else None)
@@ -335,7 +338,12 @@ def run(chk: lib.Check):
     import logging
     logging.disable(logging.CRITICAL)
 
+    import time
+    T0 = time.time()
+    def lap(name):
+        chk.coverage.setdefault('phase_seconds', {})[name] = round(time.time() - T0, 1)
     pr = chk.prove()
+    lap('prove')
     quick = chk.tier == "quick"
     rng = chk.rng
     data = lib.REPO / "tests" / "data"
@@ -387,6 +395,7 @@ def run(chk: lib.Check):
         ncases.append((l, [k for k, _ in sorted([(p, "u") for p in l], key=exs._ns_sortkey)]))
     chk.correspond(IMP, "w_ns_sorted", ncases, tag="C01_nssort")
 
+    lap('functions')
     # ---------------- (2) corpus: load -> save must reproduce every fragment byte for byte
     models = corpus_models(data)
     frag_total = frag_same = 0
@@ -446,11 +455,12 @@ def run(chk: lib.Check):
                     chk.violation(f"corpus-bytes:{f.relative_to(data)}", f"ModelFile load/write changes {f.relative_to(data)}", {"file": str(f.relative_to(data))})
                 covered.add(f)
     chk.coverage["corpus_fragments"] = frag_total
+    lap('corpus_save')
     chk.coverage["corpus_fragments_byte_identical"] = frag_same
 
     # corpus statistics for the wrap argument + model correspondence on the corpus trees
     fcases, scases, acases = [], [], []
-    limit_full = 40_000 if quick else 60_000
+    limit_full = 30_000 if quick else 60_000
     big: list[tuple[pathlib.Path, ET._Element, int]] = []
     for f in sorted(covered):
         raw = f.read_bytes()
@@ -479,7 +489,7 @@ def run(chk: lib.Check):
                    describe=lambda i: {"fragment": fcases[i][0][0]})
     # large fragments: subtrees through _serialize_element (sharded), every spine element's attributes
     sub_limit = 8_000 if quick else 50_000
-    budget = 250_000 if quick else 10 ** 12
+    budget = 100_000 if quick else 10 ** 12
     for f, root, ll in big:
         stack = [(root, 0)]
         picks = []
@@ -508,7 +518,7 @@ def run(chk: lib.Check):
             scases.append(([xmlenc.enc_parent(e), xmlenc.enc_elem(e, e.getparent().nsmap), d, 2 * d, ll], outv))
     chk.correspond(IMP, "w_elem", scases, tag="C01_elem", shard=(40 if quick else 12))
     ucorr = []
-    for e, d in (acases if not quick else acases[:300]):
+    for e, d in (acases if not quick else acases[:120]):
         par = e.getparent()
         nsmap = {v: k for k, v in e.nsmap.items() if k}
         shallow = [*xmlenc.split_q(e.tag), xmlenc.own_decls(e, par.nsmap if par is not None else None),
@@ -521,6 +531,7 @@ def run(chk: lib.Check):
     chk.correspond(IMP, "w_unmapped", ucorr, tag="C01_unmapped", shard=100)
     chk.coverage["corpus_correspondence"] = {"whole_fragments": len(fcases), "subtrees": len(scases), "spine_elements": len(ucorr)}
 
+    lap('corpus_correspondence')
     # ---------------- (3) generated Capella-shaped trees
     pools = {"roots": [], "elems": []}
     for f, root in parsed.items():
@@ -531,13 +542,13 @@ def run(chk: lib.Check):
                     pools["elems"].append(el)
     if len(pools["elems"]) > 1500:
         pools["elems"] = rng.sample(pools["elems"], 1500)
-    gens = gen_cases(chk, pools, 120 if quick else 3000)
+    gens = gen_cases(chk, pools, 80 if quick else 3000)
     dcases = []
     rcases = []
     hist: dict[str, int] = {}
     depth_cols: set[tuple[int, int]] = set()
     kinds: dict[str, int] = {}
-    corr_budget = 500 if quick else 6000
+    corr_budget = 160 if quick else 6000
     for kind, feats, build in gens:
         root, ll = build(set())
         kinds[kind] = kinds.get(kind, 0) + 1
@@ -576,9 +587,11 @@ def run(chk: lib.Check):
             if not any(el.text for el in t2.iter()):
                 body = b1.decode("utf-8").split("?>\n", 1)[1]
                 rcases.append((body, [lxml_view(t2), "\n"]))
+    lap('generated_oracles')
     chk.correspond(IMP, "w_doc", dcases, tag="C01_doc", shard=40,
                    describe=lambda i: {"written": dcases[i][1].decode("utf-8", "replace")[:1500] if isinstance(dcases[i][1], bytes) else repr(dcases[i][1])})
     chk.correspond(IMP, "w_read_sem", rcases, tag="C01_read", shard=40)
+    lap('generated_correspondence')
     chk.coverage["generated_trees"] = kinds
     chk.coverage["columns_before_attribute_70_90"] = dict(sorted(hist.items(), key=lambda kv: int(kv[0])))
     chk.coverage["depth_x_column_pairs_70_90"] = len(depth_cols)
